@@ -660,3 +660,115 @@ def slice_alternatives(fn, operand):
                 callees |= c2
         alts.append((adts, callees))
     return alts
+
+
+def trace_sources(fn, pl, depth=0, seen=None):
+    """Where the value in place `pl` comes from, followed backwards through plain moves / copies, through wrapper values
+    (`Some(x)` / `Ok(x)` / `Ready(x)` built from one operand and read back as `(w as Variant).0`) and through locals assigned in several
+    places.  -> list of leaves ('place', bb, place) | ('const', bb, operand) | ('other', bb, what), or None when the chain is not understood.
+    A wrapper of another variant (a `None` next to the `Some(x)`) contributes nothing to the payload."""
+    if depth > 10:
+        return None
+    seen = seen if seen is not None else set()
+    proj = [p_['k'] for p_ in pl['p']]
+    key = (pl['l'], tuple(proj))
+    if key in seen:
+        return []
+    seen = seen | {key}
+    if proj and proj != ['downcast', 'field']:
+        return [('place', None, pl)]
+    out = []
+    found = False
+    for bb, b in enumerate(fn.blocks):
+        if b['cleanup']:
+            continue
+        for s_ in b['stmts']:
+            if s_['k'] != 'assign' or s_['pl']['p'] or s_['pl']['l'] != pl['l']:
+                continue
+            found = True
+            rv = s_['rv']
+            if proj:
+                if rv['k'] == 'agg':
+                    ops = rv.get('ops', [])
+                    want = pl['p'][0].get('v')
+                    if rv.get('variant') is not None and want is not None and str(rv.get('variant')) != str(want):
+                        continue
+                    if len(ops) == 0:
+                        continue
+                    if len(ops) != 1:
+                        return None
+                    o = ops[0]
+                    if o['k'] == 'const':
+                        out.append(('const', bb, o))
+                    else:
+                        sub = trace_sources(fn, o['pl'], depth + 1, seen)
+                        if sub is None:
+                            return None
+                        out += sub
+                elif rv['k'] == 'use' and rv['op']['k'] in ('copy', 'move'):
+                    src = dict(rv['op']['pl'])
+                    src['p'] = list(src['p']) + list(pl['p'])
+                    if [p_['k'] for p_ in src['p']] != ['downcast', 'field']:
+                        return None
+                    sub = trace_sources(fn, src, depth + 1, seen)
+                    if sub is None:
+                        return None
+                    out += sub
+                else:
+                    return None
+                continue
+            if rv['k'] == 'use':
+                o = rv['op']
+                if o['k'] == 'const':
+                    out.append(('const', bb, o))
+                elif not o['pl']['p'] or [p_['k'] for p_ in o['pl']['p']] == ['downcast', 'field']:
+                    sub = trace_sources(fn, o['pl'], depth + 1, seen)
+                    if sub is None:
+                        return None
+                    out += sub
+                else:
+                    out.append(('place', bb, o['pl']))
+            else:
+                out.append(('other', bb, rv['k']))
+        t = b['term']
+        if t and t['k'] == 'call' and not t['dest']['p'] and t['dest']['l'] == pl['l']:
+            found = True
+            out.append(('other', bb, 'call:' + (t['func'].get('fn') or '')))
+    if not found:
+        return [('place', None, pl)]
+    return out
+
+
+def field_test_edges(fn, field, need=''):
+    """Switches of `fn` that branch on the value of struct field `field` - read directly, or read earlier and carried to the test through
+    locals and Option / Result payloads.  -> [(switch block, target of the true edge)]"""
+    from .facts import render
+    out = []
+    for bb, b in enumerate(fn.blocks):
+        t = b['term']
+        if not t or t['k'] != 'switch' or b['cleanup'] or t['discr']['k'] == 'const' or t['discr']['pl']['p']:
+            continue
+        e = fn.expr_of_local(t['discr']['pl']['l'])
+        txt = render(e)
+        if txt.endswith('.' + field) and need in txt:
+            out.append((bb, t['otherwise']))
+            continue
+        if e[0] != 'var' and not (e[0] == 'field' and e[1][0] == 'downcast'):
+            continue
+        if 'bool' != clean_ty(fn.local_ty(t['discr']['pl']['l']) or ''):
+            continue
+        leaves = trace_sources(fn, t['discr']['pl'])
+        if not leaves:
+            continue
+        okl = True
+        for kind, lbb, what in leaves:
+            if kind != 'place':
+                okl = False
+                break
+            txt2 = render(fn.expr_of_place(what))
+            if not (txt2.endswith('.' + field) and need in txt2):
+                okl = False
+                break
+        if okl:
+            out.append((bb, t['otherwise']))
+    return out
